@@ -229,6 +229,18 @@ def one_dataset(obs, rng, conv, spec, workdir=None):
             from emsarray.operations import point_extraction
             df = pandas.DataFrame({'plon': [p.x for p in pts], 'plat': [p.y for p in pts],
                                    'tag': [float(v) for v in model.fresh_ids((len(pts),))]})
+            # the table's own index: 0..k-1 as read from a file, or what is left of the index of a larger table after
+            # filtering / sorting it. Rows are requests "in request order" whatever their labels are.
+            index_style = (lambda seq: seq[int(rng.integers(len(seq)))])(['range', 'range', 'gappy', 'reversed', 'offset', 'shuffled'])
+            if index_style == 'gappy':
+                df.index = numpy.cumsum(rng.integers(1, 4, size=len(pts))) + 3
+            elif index_style == 'reversed':
+                df.index = numpy.arange(len(pts))[::-1]
+            elif index_style == 'offset':
+                df.index = numpy.arange(len(pts)) + 1
+            elif index_style == 'shuffled':
+                df.index = rng.permutation(len(pts))
+            obs.cls('dataframe-index:' + index_style)
             kwargs = {'missing_points': policy}
             if pdim is not None:
                 kwargs['point_dimension'] = pdim
@@ -244,6 +256,10 @@ def one_dataset(obs, rng, conv, spec, workdir=None):
             if pdim is not None:
                 kwargs['point_dimension'] = pdim
             call = lambda: ems.select_points(pts, **kwargs)   # noqa: E731
+        odd_index = df is not None and index_style != 'range'
+
+        def M(default):
+            return 'dataframe-index-labels' if odd_index else default
         dim_used = pdim if pdim is not None else 'point'
         if pdim is None and 'point' in ds.dims and api != 'extract_dataframe':
             dim_used = None  # default name collides with a dataset dimension: must be some unused point_N
@@ -261,7 +277,7 @@ def one_dataset(obs, rng, conv, spec, workdir=None):
         if policy == 'drop' and not hits:
             obs.cls('policy:drop:all-missing-not-asserted')
             continue
-        out = obs.call('%s(missing_points=%s)' % (api, policy), call)
+        out = obs.call('%s(missing_points=%s)' % (api, policy), call, mech=M(None))
         if isinstance(out, Failed):
             continue
         if dim_used is None:
@@ -272,30 +288,30 @@ def one_dataset(obs, rng, conv, spec, workdir=None):
         if policy in ('error', 'drop'):
             if policy == 'drop' and misses:
                 obs.cls('policy:drop:some-missing')
-            obs.expect(out.sizes.get(dim_used) == len(hits), 'one row per intersecting request', lambda: {'sizes': dict(out.sizes), 'hits': len(hits)}, mech='policy-rows')
+            obs.expect(out.sizes.get(dim_used) == len(hits), 'one row per intersecting request', lambda: {'sizes': dict(out.sizes), 'hits': len(hits)}, mech=M('policy-rows'))
             if out.sizes.get(dim_used) != len(hits):
                 continue
             labels = [int(v) for v in out[dim_used].values] if dim_used in out.coords else None
-            obs.expect(labels == hits, 'rows are labelled with the original positions of the points', lambda: {'labels': labels, 'want': hits}, mech='policy-labels')
-            check_selection(obs, model, out, 'face', hit_cells, dim_used, '%s/%s' % (api, policy), 'points-values')
+            obs.expect(labels == hits, 'rows are labelled with the original positions of the points', lambda: {'labels': labels, 'want': hits}, mech=M('policy-labels'))
+            check_selection(obs, model, out, 'face', hit_cells, dim_used, '%s/%s' % (api, policy), M('points-values'))
             if df is not None:
                 obs.expect('tag' in out.variables and nan_equal(out['tag'].values, df['tag'].values[hits]), 'dataframe columns merged row-aligned',
-                           lambda: {'got': out['tag'].values if 'tag' in out.variables else None, 'want': df['tag'].values[hits]}, mech='dataframe-misaligned')
+                           lambda: {'got': out['tag'].values if 'tag' in out.variables else None, 'want': df['tag'].values[hits]}, mech=M('dataframe-misaligned'))
                 obs.expect(nan_equal(out['plon'].values, df['plon'].values[hits]) and nan_equal(out['plat'].values, df['plat'].values[hits]),
-                           'coordinate columns merged row-aligned', mech='dataframe-misaligned')
+                           'coordinate columns merged row-aligned', mech=M('dataframe-misaligned'))
         else:  # fill
             if misses:
                 obs.cls('policy:fill:some-missing')
-            obs.expect(out.sizes.get(dim_used) == len(pts), "'fill' keeps one row per request", lambda: {'sizes': dict(out.sizes), 'n': len(pts)}, mech='policy-rows')
+            obs.expect(out.sizes.get(dim_used) == len(pts), "'fill' keeps one row per request", lambda: {'sizes': dict(out.sizes), 'n': len(pts)}, mech=M('policy-rows'))
             if out.sizes.get(dim_used) != len(pts):
                 continue
             labels = [int(v) for v in out[dim_used].values]
-            obs.expect(labels == list(range(len(pts))), "'fill' rows are labelled 0..k-1 in request order", lambda: {'labels': labels}, mech='policy-labels')
-            obs.expect(nan_equal(out['tag'].values, df['tag'].values), 'dataframe columns merged row-aligned (fill)', mech='dataframe-misaligned')
+            obs.expect(labels == list(range(len(pts))), "'fill' rows are labelled 0..k-1 in request order", lambda: {'labels': labels}, mech=M('policy-labels'))
+            obs.expect(nan_equal(out['tag'].values, df['tag'].values), 'dataframe columns merged row-aligned (fill)', mech=M('dataframe-misaligned'))
             for name, var in model.variables.items():
                 if var.kind != 'face':
                     continue
-                if not obs.expect(name in out.variables, 'fill: variable on the face grid present', lambda: {'var': name}, mech='points-values'):
+                if not obs.expect(name in out.variables, 'fill: variable on the face grid present', lambda: {'var': name}, mech=M('points-values')):
                     continue
                 got = out[name].transpose(*var.extra_dims, dim_used).values
                 canon = var.expected(var.canon, source)
@@ -310,7 +326,7 @@ def one_dataset(obs, rng, conv, spec, workdir=None):
                     else:
                         ok = ok and nan_equal(col.astype(float), canon[..., n].astype(float))
                 obs.expect(ok, "'fill': stored values for hits, missing data for misses, row-aligned",
-                           lambda: {'var': name, 'located': located, 'got': got}, mech='points-values')
+                           lambda: {'var': name, 'located': located, 'got': got}, mech=M('points-values'))
             for g in model.geometry_names:
                 obs.expect(g not in out.variables, 'fill: geometry variable must be absent', lambda: {'var': g}, mech='geometry-present')
         if len(obs.samples) < 4 and misses and hits:
